@@ -91,7 +91,9 @@ def install(md, inj):
         else:
             def hl(code, lang, attrs, _idx=idx):
                 inj.hit(_idx)
-                return ""
+                from markdown_it.common.utils import escapeHtml
+
+                return "<i>HL</i>" + escapeHtml(code)  # distinctive: losing the callback changes probe output
 
             md.options["highlight"] = hl
     return cbs
@@ -99,7 +101,7 @@ def install(md, inj):
 
 def snapshot(md):
     return {"active": md.get_active_rules(), "all": md.get_all_rules(),
-            "options": {k: v for k, v in dict(md.options).items() if k != "highlight"},
+            "options": {k: (v if k != "highlight" else (v is not None)) for k, v in dict(md.options).items()},
             "render_rules": sorted(md.renderer.rules)}
 
 
